@@ -75,6 +75,7 @@ type Exec struct {
 	specErrs []string
 	pureMemo map[string]pureMemo
 	lastCallName string
+	recvSelf *specBinding
 	assumedClauses []string
 	curLoop *Loop
 	argTypes map[string]types.Type
